@@ -25,11 +25,13 @@ import (
 
 // c12Fn is a function with its control-flow graph.
 type c12Fn struct {
-	pk   *packages.Package
-	fi   *FuncInfo
-	g    *cfg.CFG
-	dom  map[*cfg.Block]map[*cfg.Block]bool
-	pred map[*cfg.Block][]*cfg.Block
+	pk    *packages.Package
+	fi    *FuncInfo
+	g     *cfg.CFG
+	dom   map[*cfg.Block]map[*cfg.Block]bool
+	pred  map[*cfg.Block][]*cfg.Block
+	lit   *ast.FuncLit // set when the function is a literal (key derivation only), written in outer
+	outer *c12Fn
 }
 
 // c12Done is a point after which a sort (or another event) has completed: after node idx of block (idx -1: on
@@ -162,6 +164,9 @@ func (f *c12Fn) loopBlocks(l ast.Stmt) (head, body, done *cfg.Block) {
 func c12Resolve(info *types.Info, body ast.Node, e ast.Expr) types.Object {
 	for depth := 0; depth < 4; depth++ {
 		e = c12StripConv(info, e)
+		if _, isSel := e.(*ast.SelectorExpr); isSel {
+			return c12ResolveField(info, body, e, 3)
+		}
 		id, ok := e.(*ast.Ident)
 		if !ok {
 			return nil
@@ -175,7 +180,13 @@ func c12Resolve(info *types.Info, body ast.Node, e ast.Expr) types.Object {
 		if rhs == nil {
 			return v
 		}
-		if _, ok := c12StripConv(info, rhs).(*ast.Ident); !ok {
+		switch c12StripConv(info, rhs).(type) {
+		case *ast.Ident:
+		case *ast.SelectorExpr:
+			if fieldOf(info, c12StripConv(info, rhs)) == nil {
+				return v
+			}
+		default:
 			return v
 		}
 		e = rhs
@@ -340,8 +351,17 @@ func c12HoldsUpdates(t types.Type) bool {
 }
 
 type c12SortedArg struct {
-	e    ast.Expr
+	e    ast.Expr     // the argument that is sorted, or
+	obj  types.Object // the place that is sorted (a field of a struct argument); e is nil then
 	elem bool
+}
+
+// place returns the place the sorted operand denotes in the calling function.
+func (a c12SortedArg) place(info *types.Info, body ast.Node) types.Object {
+	if a.obj != nil {
+		return a.obj
+	}
+	return c12Resolve(info, body, a.e)
 }
 
 // sortedArgs returns the operands a call sorts completely (by the index order) before it returns.
@@ -389,6 +409,19 @@ func (s *c12Sorter) sortedArgs(f *c12Fn, call *ast.CallExpr, depth int) []c12Sor
 		case c12HoldsUpdates(p.Type()):
 			if s.fnSorts(h, p, true, depth-1) {
 				out = append(out, c12SortedArg{e: arg, elem: true})
+			}
+		default:
+			// a struct (or pointer to one) that holds the lists in a field: h sorts that field of its parameter
+			base := c12Resolve(info, f.fi.Decl.Body, stripDerefParen(c12StripConv(info, arg)))
+			if base == nil {
+				continue
+			}
+			for _, fp := range c12FieldPlaces(p, func(t types.Type) bool { return c12IsUpdates(t) || c12HoldsUpdates(t) }) {
+				_, path := c12PlaceParts(fp)
+				elem := c12HoldsUpdates(fp.Type())
+				if s.fnSorts(h, fp, elem, depth-1) {
+					out = append(out, c12SortedArg{obj: c12OnBase(base, path), elem: elem})
+				}
 			}
 		}
 	}
@@ -557,9 +590,9 @@ func (s *c12Sorter) sortsOf(f *c12Fn, root types.Object, elem bool, depth int) [
 		switch x := n.(type) {
 		case *ast.CallExpr:
 			for _, a := range s.sortedArgs(f, x, depth) {
-				if a.elem == elem && c12Resolve(info, body, a.e) == root {
+				if a.elem == elem && a.place(info, body) == root {
 					if d, ok := f.at(x.Pos(), src(f.pk.Fset, x)); ok {
-						if as := c12AssignOf(f, x, root); as != nil {
+						if as := c12AssignOf(f, x, root); as != nil && a.e != nil {
 							// root = h(root): fine when h hands its (sorted) parameter back
 							if !s.returnsArg(f, x, a.e) {
 								continue
@@ -591,7 +624,7 @@ func c12AssignOf(f *c12Fn, call *ast.CallExpr, root types.Object) *ast.AssignStm
 			return true
 		}
 		for _, l := range as.Lhs {
-			if c12RootVar(f.info(), l) == root {
+			if c12WritesPlace(f.info(), f.fi.Decl.Body, l, root) {
 				out = as
 			}
 		}
@@ -759,7 +792,7 @@ func (s *c12Sorter) loopSortsAll(f *c12Fn, l ast.Stmt, root types.Object, depth 
 			return true
 		}
 		for _, a := range s.sortedArgs(f, call, depth) {
-			if a.elem || !isCurIdx(a.e) {
+			if a.elem || a.e == nil || !isCurIdx(a.e) {
 				continue
 			}
 			cb, _ := blockOf(f.g, call.Pos())
@@ -773,6 +806,10 @@ func (s *c12Sorter) loopSortsAll(f *c12Fn, l ast.Stmt, root types.Object, depth 
 				}
 			}
 			if all {
+				if same, why := s.sortedIsStored(f, lbody, call, a.e, root, idx, val, isCurIdx); !same {
+					s.note("%s", why)
+					continue
+				}
 				ok = true
 			}
 		}
@@ -856,6 +893,9 @@ func (s *c12Sorter) retSorted(f *c12Fn, ret *ast.ReturnStmt, k int, elem bool, a
 	if e != nil && c12IsNil(info, e) {
 		return c12Triv, "returns nil"
 	}
+	if v == nil && e != nil {
+		v = s.getterPlace(f, e) // return a.lists(): an accessor of a field
+	}
 	if v != nil {
 		for _, d := range s.sortsOf(f, v, elem, depth) {
 			if (after == nil || f.follows(d, *after)) && f.dominates(d, ret.Pos()) {
@@ -903,7 +943,7 @@ func (s *c12Sorter) retSorted(f *c12Fn, ret *ast.ReturnStmt, k int, elem bool, a
 func (f *c12Fn) freshAt(v types.Object, ret *ast.ReturnStmt) bool {
 	info := f.info()
 	body := f.fi.Decl.Body
-	if c12ParamPos(info, f.fi.Decl, v) >= 0 {
+	if c12ParamPos(info, f.fi.Decl, v) >= 0 || c12IsPlace(v) {
 		return false
 	}
 	if rhs := c12SingleDef(info, body, v); rhs != nil {
@@ -1000,7 +1040,7 @@ func (f *c12Fn) writtenBetween(v types.Object, d c12Done, ret *ast.ReturnStmt) a
 			return true
 		}
 		for _, l := range lhs {
-			if c12RootVar(info, l) != v || n == d.skip {
+			if !c12WritesPlace(info, f.fi.Decl.Body, l, v) || n == d.skip {
 				continue
 			}
 			b, _ := blockOf(f.g, n.Pos())
@@ -1120,11 +1160,14 @@ func (s *c12Sorter) taints(f *c12Fn, node ast.Node, depth int) []c12Taint {
 				if !ok {
 					continue
 				}
-				root := c12RootVar(info, x.Lhs[i])
+				root, isIdx := c12ListPlace(info, f.fi.Decl.Body, x.Lhs[i])
+				if root == nil {
+					root = c12RootVar(info, x.Lhs[i])
+					_, isIdx = ast.Unparen(x.Lhs[i]).(*ast.IndexExpr)
+				}
 				if root == nil {
 					continue
 				}
-				_, isIdx := ast.Unparen(x.Lhs[i]).(*ast.IndexExpr)
 				if builtinName(info, call) == "append" {
 					add(c12Taint{root: root, elem: isIdx, pos: x.Pos(), via: src(f.pk.Fset, x)})
 					continue
@@ -1133,7 +1176,7 @@ func (s *c12Sorter) taints(f *c12Fn, node ast.Node, depth int) []c12Taint {
 				if h := s.fn(callee(info, call)); h != nil {
 					if _, isSlice := info.TypeOf(x.Lhs[i]).Underlying().(*types.Slice); isSlice {
 						for _, a := range call.Args {
-							if c12RootVar(info, a) == root {
+							if c12WritesPlace(info, f.fi.Decl.Body, a, root) {
 								add(c12Taint{root: root, elem: isIdx, pos: x.Pos(), via: src(f.pk.Fset, x)})
 							}
 						}
@@ -1157,17 +1200,18 @@ func (s *c12Sorter) taints(f *c12Fn, node ast.Node, depth int) []c12Taint {
 				if arg == nil {
 					continue
 				}
-				root := objOf(info, c12StripConv(info, arg))
+				root := c12Resolve(info, f.fi.Decl.Body, stripDerefParen(c12StripConv(info, arg)))
 				if root == nil {
-					continue // only whole variables share their elements with the callee
+					continue // only whole variables and fields share their elements with the callee
 				}
 				if inner == nil {
 					inner = s.fnTaints(h, depth-1)
 				}
 				for _, t := range inner {
 					// p[k] = append(p[k], ...) in the callee writes the caller's elements; p = append(p, ...) does not
-					if t.root == p && t.elem {
-						add(c12Taint{root: root, elem: true, pos: x.Pos(), via: src(f.pk.Fset, x) + " -> " + t.via})
+					tr, tpath := c12PlaceParts(t.root)
+					if tr == p && (t.elem || (len(tpath) > 0 && c12SharesWithCaller(p, tpath))) {
+						add(c12Taint{root: c12OnBase(root, tpath), elem: t.elem, pos: x.Pos(), via: src(f.pk.Fset, x) + " -> " + t.via})
 					}
 				}
 			}
@@ -1215,6 +1259,7 @@ func (s *c12Sorter) callSites(fn *c12Fn) []c12CallSite {
 type c12CallSite struct {
 	in   *FuncInfo
 	call *ast.CallExpr
+	via  *ast.CallExpr // for a literal invoked inside a helper: the call that passes the literal to the helper
 }
 
 // escapeSorted decides whether variable root of f, filled in an order that is not deterministic up to point after,
@@ -1239,7 +1284,11 @@ func (s *c12Sorter) escapeSorted(f *c12Fn, root types.Object, elem bool, after c
 		k := -1
 		nres := f.fi.Obj.Type().(*types.Signature).Results().Len()
 		for i := 0; i < nres; i++ {
-			if _, v := c12ResultExpr(f, ret, i); v == root {
+			e, v := c12ResultExpr(f, ret, i)
+			if v == nil && e != nil {
+				v = s.getterPlace(f, e)
+			}
+			if v == root {
 				k = i
 			}
 		}
@@ -1248,7 +1297,7 @@ func (s *c12Sorter) escapeSorted(f *c12Fn, root types.Object, elem bool, after c
 			for _, e := range ret.Results {
 				if call, ok := ast.Unparen(e).(*ast.CallExpr); ok {
 					for _, a := range s.sortedArgs(f, call, depth) {
-						if a.elem == elem && c12Resolve(info, f.fi.Decl.Body, a.e) == root && s.returnsArg(f, call, a.e) {
+						if a.elem == elem && a.e != nil && c12Resolve(info, f.fi.Decl.Body, a.e) == root && s.returnsArg(f, call, a.e) {
 							k = -2
 						}
 					}
@@ -1275,6 +1324,9 @@ func (s *c12Sorter) escapeSorted(f *c12Fn, root types.Object, elem bool, after c
 		return true
 	})
 	if nret == 0 && st == c12OK {
+		if pst, pwhy, applies := s.escapeThroughParam(f, root, elem, after, depth); applies {
+			return pst, pwhy
+		}
 		return c12Unk, "the point where " + root.Name() + " leaves " + f.fi.Name() + " was not found (it is not returned after being filled)"
 	}
 	if st == c12OK {
